@@ -321,7 +321,7 @@ fn hostile(rep: &mut Report, seed: u64, snaps: &[Vec<u8>], tier: Tier) {
     let mut results: Vec<Option<String>> = vec![None; inputs.len()];
     let mut start = 0usize;
     let mut deaths = 0;
-    while start < inputs.len() && deaths < 50 {
+    while start < inputs.len() && deaths < tier.pick(60, 600) {
         let out = std::process::Command::new(&exe)
             .env("VH_C07_CHILD", batch.to_str().unwrap())
             .env("VH_C07_START", start.to_string())
@@ -407,7 +407,7 @@ pub fn run(tier: Tier, seed: u64) -> ! {
         db.create_edge_with_props(a, b, "R", [("w", Value::Bool(true))]);
         small_snaps.push(db.export_snapshot().unwrap());
     }
-    for case in 0..tier.pick(100, 6000) {
+    for case in 0..tier.pick(100, 1500) {
         if let Some(s) = copies(&mut rep, seed, case) {
             if s.len() < 200 && small_snaps.len() < 5 {
                 small_snaps.push(s);
